@@ -60,13 +60,16 @@ def neg(nu):
 # ---- primitives --------------------------------------------------------------
 
 
+# every claim is a triple (name, premise, conclusion); claims() states premise => conclusion
+
+
 def interval_claims(lb, ub, p, nu, L):
-    return [("left_end_minus_one", L.Implies(L.eq(p[0], lb), L.eq(nu[0], -1))),
-            ("right_end_plus_one", L.Implies(L.eq(p[0], ub), L.eq(nu[0], 1)))]
+    return [("left_end_minus_one", L.eq(p[0], lb), L.eq(nu[0], -1)),
+            ("right_end_plus_one", L.eq(p[0], ub), L.eq(nu[0], 1))]
 
 
 def ball_claims(c, r, p, nu, L, tol=1e-6):
-    return [("radial[%d]" % i, L.eq(nu[i] * r, p[i] - c[i], tol)) for i in range(len(c))]
+    return [("radial(%d)" % i, True, L.eq(nu[i] * r, p[i] - c[i], tol)) for i in range(len(c))]
 
 
 def polygon_frame(corners):
@@ -98,23 +101,35 @@ def polygon_claims(corners, p, nu, L, tau=2e-4, tol=1e-6):
         near_end.append(L.And(line, L.le((1 - tau) * ee, s), L.le(s, ee)))
     gp = [g[0] - m * p[0], g[1] - m * p[1]]  # m * (centroid - p)
     ccw, cw = L.gt(orient, 0), L.lt(orient, 0)
-    edge, step, cone = [], [], []
-    for i, (a, e, r) in enumerate(fr):
+    out = []
+    for i, (a, e, r) in enumerate(fr):  # one claim per edge / corner: small queries
         # open edge interior: THE outward unit normal of the edge (with nu.nu == 1 claimed separately)
-        edge.append(L.Implies(inner[i], L.And(L.eq(dot(nu, e), 0, tol), L.lt(dot(nu, gp), 0))))
+        out.append(("edge_interior_is_outward_edge_normal(e%d)" % i, inner[i],
+                    L.And(L.eq(dot(nu, e), 0, tol), L.lt(dot(nu, gp), 0))))
         # anywhere on the closed edge: a step against nu enters the open half-plane of this edge
-        step.append(L.Implies(on[i], L.And(L.Implies(ccw, L.gt(dot(nu, r), 0)), L.Implies(cw, L.lt(dot(nu, r), 0)))))
+        out.append(("step_against_normal_enters(e%d)" % i, on[i],
+                    L.And(L.Implies(ccw, L.gt(dot(nu, r), 0)), L.Implies(cw, L.lt(dot(nu, r), 0)))))
         # corner zone of the vertex v where edge i ends and edge j starts: nu in the normal cone
         # N(v) = {nu : nu.(x - v) <= 0 for all x in the polygon} = {nu.(-e_i) <= 0, nu.e_j <= 0} (convexity)
         j = (i + 1) % m
         ej = fr[j][1]
-        zone = L.Or(near_end[i], near_start[j])
-        cone.append(L.Implies(zone, L.And(L.ge(dot(nu, e), 0), L.le(dot(nu, ej), 0))))
-    out = []
-    for i in range(m):  # one claim per edge / corner: small queries
-        out.append(("edge_interior_is_outward_edge_normal(e%d)" % i, edge[i]))
-        out.append(("step_against_normal_enters(e%d)" % i, step[i]))
-        out.append(("corner_zone_in_normal_cone(v%d)" % ((i + 1) % m), cone[i]))
+        out.append(("corner_zone_in_normal_cone(v%d)" % j, L.Or(near_end[i], near_start[j]),
+                    L.And(L.ge(dot(nu, e), 0), L.le(dot(nu, ej), 0))))
+    return out
+
+
+def edge_point_premises(m, i, t, L, tau=2e-4):
+    """normal form of the premises of polygon_claims for the point p = a_i + t*(b_i - a_i), 0 <= t <= 1, of a
+    non-degenerate convex m-gon, as conditions on the edge parameter t (False = never).  They are NOT taken
+    on trust: the check proves premise <=> normal form for every claim (pure polynomial queries)."""
+    tau = L.num(tau)
+    nxt, prv = (i + 1) % m, (i - 1) % m
+    out = {}
+    for j in range(m):
+        out["edge_interior_is_outward_edge_normal(e%d)" % j] = L.And(L.lt(tau, t), L.lt(t, 1 - tau)) if j == i else False
+        out["step_against_normal_enters(e%d)" % j] = True if j == i else (L.eq(t, 1) if j == nxt else (L.eq(t, 0) if j == prv else False))
+        # vertex j = start of edge j = end of edge j-1
+        out["corner_zone_in_normal_cone(v%d)" % j] = L.ge(t, 1 - tau) if j == nxt else (L.le(t, tau) if j == i else False)
     return out
 
 
@@ -147,15 +162,17 @@ def on_some_piece(oset, p, prm, L):
 # ---- dispatch on the oracle set ------------------------------------------------
 
 
-def claims(oset, p, nu, prm, L, tau=2e-4, tol=1e-6):
+def claims3(oset, p, nu, prm, L, tau=2e-4, tol=1e-6):
+    """-> list of (name, leaf, conds, premise, conclusion): `leaf` the primitive oracle set the claim is about,
+    `conds` the operand-selection conditions of the Boolean combinations above it"""
     ev = O._ev
     if isinstance(oset, O.OInterval):
-        return interval_claims(ev(oset.lb, prm)[0], ev(oset.ub, prm)[0], p, nu, L)
-    if isinstance(oset, O.OBall):
-        return ball_claims(ev(oset.c, prm), ev(oset.r, prm)[0], p, nu, L, tol)
-    if isinstance(oset, (O.OParallelogram, O.OTriangle)):
-        return polygon_claims(oset.corners(prm), p, nu, L, tau, tol)
-    if isinstance(oset, (O.OUnion, O.OCut, O.OInter)):
+        cl = interval_claims(ev(oset.lb, prm)[0], ev(oset.ub, prm)[0], p, nu, L)
+    elif isinstance(oset, O.OBall):
+        cl = ball_claims(ev(oset.c, prm), ev(oset.r, prm)[0], p, nu, L, tol)
+    elif isinstance(oset, (O.OParallelogram, O.OTriangle)):
+        cl = polygon_claims(oset.corners(prm), p, nu, L, tau, tol)
+    elif isinstance(oset, (O.OUnion, O.OCut, O.OInter)):
         a, b = oset.a, oset.b
         on_a, on_b = a.boundary_band(p, prm, L, 0), b.boundary_band(p, prm, L, 0)
         if isinstance(oset, O.OUnion):
@@ -170,10 +187,17 @@ def claims(oset, p, nu, prm, L, tau=2e-4, tol=1e-6):
             cond_a = L.And(on_a, b.interior(p, prm, L, tau))
             cond_b = L.And(on_b, a.interior(p, prm, L, tau))
             nu_b = nu
-        out = [("A." + n, L.Implies(cond_a, f)) for n, f in claims(a, p, nu, prm, L, tau, tol)]
-        out += [("B." + n, L.Implies(cond_b, f)) for n, f in claims(b, p, nu_b, prm, L, tau, tol)]
+        out = [("A." + n, lf, [cond_a] + cs, pr, co) for n, lf, cs, pr, co in claims3(a, p, nu, prm, L, tau, tol)]
+        out += [("B." + n, lf, [cond_b] + cs, pr, co) for n, lf, cs, pr, co in claims3(b, p, nu_b, prm, L, tau, tol)]
         return out
-    raise NotImplementedError("no normal oracle for %s" % type(oset).__name__)
+    else:
+        raise NotImplementedError("no normal oracle for %s" % type(oset).__name__)
+    return [(n, oset, [], pr, co) for n, pr, co in cl]
+
+
+def claims(oset, p, nu, prm, L, tau=2e-4, tol=1e-6):
+    """-> list of (name, formula)"""
+    return [(n, L.Implies(L.And(*(cs + [pr])), co)) for n, lf, cs, pr, co in claims3(oset, p, nu, prm, L, tau, tol)]
 
 
 def selected(oset, p, prm, L, tau=2e-4):
